@@ -141,7 +141,7 @@ pub fn run(iters: u64, seed: u64) -> SelfTest {
 
     // committed third-implementation vectors (Python fractions.Fraction)
     let mut vec_n = 0u64;
-    let path = format!("{}/golden/round_vectors.json", crate::core::VERIF_DIR);
+    let path = format!("{}/golden/round_vectors.json", crate::core::verif_dir());
     match std::fs::read_to_string(&path) {
         Ok(text) => {
             let v: serde_json::Value = serde_json::from_str(&text).unwrap_or(serde_json::Value::Null);
